@@ -458,6 +458,11 @@ int evsig_set_handler_(struct event_base *base, int evsignal,
 			  void (*fn)(int));
 int evsig_restore_handler_(struct event_base *base, int evsignal);
 
+/** Clear the remembered interval of a persistent event whose timer is not
+ * pending (takes the base lock). */
+EVENT2_EXPORT_SYMBOL
+void event_clear_persist_timeout_(struct event *ev);
+
 int event_add_nolock_(struct event *ev,
     const struct timeval *tv, int tv_is_absolute);
 /** Argument for event_del_nolock_. Tells event_del not to block on the event
